@@ -149,6 +149,61 @@ def v1(e: Engine, rep: Report):
                       reason='recv_into(view of bytearray(%s), %s) in a '
                       'bounded loop' % (ast.unparse(bound) if bound
                                         is not None else '?', cnt))
+    # V1b: the running length advances by what recv_into RETURNED
+    for f in e.p.functions.values():
+        if f.module is not m:
+            continue
+        for n in walk_own(f.node):
+            if not (isinstance(n, ast.Assign) and
+                    isinstance(n.value, ast.Call) and
+                    isinstance(n.value.func, ast.Attribute) and
+                    n.value.func.attr == 'recv_into' and
+                    isinstance(n.targets[0], ast.Name)):
+                continue
+            rv = n.targets[0].id
+            loops = [w for w in walk_own(f.node) if isinstance(w, ast.While)
+                     and any(x is n for x in ast.walk(w))]
+            scope = loops[-1] if loops else f.node
+            used = False
+            for x in ast.walk(scope):
+                if isinstance(x, ast.Subscript) and \
+                        isinstance(x.slice, ast.Slice) and \
+                        x.slice.upper is not None and any(
+                            isinstance(y, ast.Name) and y.id == rv
+                            for y in ast.walk(x.slice.upper)):
+                    used = True
+            rep.evaluations += 1
+            rep.check(used, 'V1', f.qname,
+                      'progress is measured by the value recv_into returned',
+                      'the number of bytes recv_into() actually returned '
+                      '(`%s`) does not enter the slice that extends the '
+                      'data read so far: after a short read, bytes that '
+                      'were never received are taken as header bytes / the '
+                      'reader runs past the header' % rv, loc=f.loc(n),
+                      reason='returned count used in the view slice')
+    # V1c: the declared length is read unmodified
+    pctx = e.ctx(V2 + '.process_pp_v2')
+    fn2 = pctx.func.node
+    reads2 = sorted([n for n in walk_own(fn2) if isinstance(n, ast.Call) and
+                     ast.unparse(n.func).endswith('__read_pp_data')],
+                    key=lambda n: (n.lineno, n.col_offset))
+    if len(reads2) == 2 and len(reads2[1].args) > 1 and \
+            isinstance(reads2[1].args[1], ast.Name):
+        ln = reads2[1].args[1].id
+        defs = [n for n in walk_own(fn2) if isinstance(n, ast.Assign) and any(
+            isinstance(x, ast.Name) and x.id == ln
+            for t in n.targets for x in ast.walk(t))]
+        rep.evaluations += 1
+        ok = len(defs) == 1 and isinstance(defs[0].value, ast.Call) and \
+            ast.unparse(defs[0].value.func).endswith('__parse_pp_data')
+        rep.check(ok, 'V1', pctx.func.qname,
+                  'the address block is read with the declared length, '
+                  'unmodified', 'the length used for the second read (`%s`) '
+                  'is not simply the value parsed from the header (%d '
+                  'definitions): fewer / more bytes than declared are '
+                  'consumed, so TLVs stay on the socket or payload is eaten'
+                  % (ln, len(defs)), loc=pctx.func.loc(reads2[1]),
+                  reason='single definition from __parse_pp_data')
     # the v2 header read is exactly 16 bytes, then the declared length
     ctx = e.ctx(V2 + '.process_pp_v2')
     reads = sorted([n for n in walk_own(ctx.func.node)
